@@ -147,8 +147,8 @@ def rel(c, e, g):
 
 
 def run(ctx):
-    cases = poison_cases(ctx, 4 if ctx.tier == 'quick' else 6, ctx.tier != 'quick') + static_cases(ctx)
-    wc = warning_cases(ctx, 1500 if ctx.tier == 'quick' else 40000)
+    cases = poison_cases(ctx, 4 if ctx.tier == 'quick' else 8, ctx.tier != 'quick') + static_cases(ctx)
+    wc = warning_cases(ctx, 1500 if ctx.tier == 'quick' else 200000)
     # expected field-count warning from the model (Warn.field_count_warning over the records actually pulled)
     margs = [ec.model_arg(c) for c in wc]
     mres = lib.run_model(300, margs)
